@@ -259,6 +259,22 @@ def execute(sc, ctx) -> None:
         R = sim.calls["r"]
         # at normal return the disk already holds the final file (before any close / GC)
         finals = {p: slurp(p) for p in list_outputs(gold_dir)}
+        if name in T.NAMES:
+            # ... and "complete" means the product the call's arguments define (every sample of it), not merely
+            # something that is a prefix of itself: the golden files are held against the whole-array definition
+            from .c07 import compare_output
+
+            try:
+                delays = np.atleast_1d(np.asarray(reader.header.get_dmdelays(sc["params"]["dm"]))) if name == "subband" else None
+                exps = T.define(name, fs.samples[start : start + ns], fs.samples, spec, sc["params"], delays)
+                if name == "remove_zerodm" and not T.in_range_for_zerodm(exps[0], spec["nbits"]):
+                    exps = None
+            except Rejected:
+                exps = None
+            if exps is not None:
+                for pth, exp in zip(outs, exps):
+                    compare_output(pth, exp, exps[0].data.shape[0], lambda c, d: mk("file-at-return-is-not-the-defined-product/" + c, d), ctx)
+                ctx.probe("golden-product-compared-with-its-definition")
         for p, snap in snaps.items():
             if finals.get(p) != snap:
                 raise mk("bytes-written-outside-the-write-seam", f"{ctx.rel(p)}: file differs from the snapshot after its last write call")
